@@ -184,7 +184,10 @@ def monitor (o : Op) (impl : String) : String :=
       | none, none, none =>
         -- what the handler saw, minus what the transport is allowed to add
         let seen := dropKey (dropKey (dropKey inMD hAuthority) hUserAgent) hContentType
-        if showMD seen ≠ showMD exp then
+        -- the two whitelisted names must carry the transport's own values only ("not sent from user metadata")
+        if mdGet inMD hAuthority ≠ [cfg.authority] then "VIOL :authority seen by the handler is not the transport's: " ++ showMD [(hAuthority, mdGet inMD hAuthority)]
+        else if mdGet inMD hUserAgent ≠ [cfg.userAgent] then "VIOL user-agent seen by the handler is not the transport's: " ++ showMD [(hUserAgent, mdGet inMD hUserAgent)]
+        else if showMD seen ≠ showMD exp then
           s!"VIOL handler saw {showMD seen} but the client sent {showMD exp}" ++ special
         else
           -- server → client, judged only when the server-side metadata is valid (domain of the statement)
